@@ -70,6 +70,8 @@ def main(tier):
                 run.ob(entry, "new_node/%s: returned slot is live afterwards with the payload stored and no links" % prof,
                        rec["returned_data"] == "Data" and rec["returned_links"] == [None] * 5 and rec["returned_stamp_range"][0] >= 0,
                        key="new_node|returned slot not a clean live node", detail=d, nontrivial=nt)
+                run.ob(entry, "new_node/%s: the id handed out carries the slot's current generation (a fresh id is not 'removed')" % prof, rec.get("returned_id_is_current") is True,
+                       key="new_node|returned id does not carry the slot's current stamp", detail=d, nontrivial=nt)
                 run.ob(entry, "new_node/%s: no other node is written" % prof, not rec["other_writes"] and all(w[0] == k for w in rec["data_writes"]),
                        key="new_node|writes to another node", detail=d)
                 if pre["first"] is None:
